@@ -1,7 +1,8 @@
 """C04  Tiled images reassemble to the exact total pixel matrix.
 
 Tie T: T3 (row/column normalisation), T5 (region -> tile selection and slice bounds), T6 (get_tile_array
-bounds/padding), T7b (tile counts of compute_tile_positions_per_frame), regenerated on every run.
+bounds/padding), T7b (tile counts of compute_tile_positions_per_frame), T7e (z origin / loop nest of
+iter_tiled_full_frame_data, from which the TILED_FULL frame table is derived), regenerated on every run.
 Tie C: the composed model (Model/Tiling.lean: table selection, copy loop, TILED_FULL table, the tiling loop of
 the Segmentation constructor) against
   L0  Image.get_total_pixel_matrix on synthetic tiled slide images (TILED_FULL / TILED_SPARSE, omitted tiles,
@@ -21,7 +22,7 @@ import itertools
 import numpy as np
 
 PROP = 'C04'
-TARGETS = ['T3', 'T5', 'T6', 'T7b']
+TARGETS = ['T3', 'T5', 'T6', 'T7b', 'T7e']
 LEAN_MODULES = ['HdVerif.Props.C04']
 MODEL_MODULES = ['HdVerif.Model.TilingJson']
 NAMESPACE = 'HdVerif.C04'
@@ -176,6 +177,38 @@ def exhaustive_requests(rng, R, C):
     return out
 
 
+LAYOUTS = ['C', 'F', 'transposed-view', 'strided-view', 'negative-stride', 'read-only']
+
+
+def with_layout(a, layout):
+    """the same values in another memory layout (the library must not care)"""
+    a = np.asarray(a)
+    if layout == 'F':
+        return np.asfortranarray(a)
+    if layout == 'transposed-view':
+        return np.ascontiguousarray(np.moveaxis(a, -1, 0)).transpose(*range(1, a.ndim), 0) if a.ndim > 1 else a
+    if layout == 'strided-view':
+        big = np.zeros(tuple(2 * n for n in a.shape), dtype=a.dtype)
+        sl = tuple(slice(0, None, 2) for _ in a.shape)
+        big[sl] = a
+        return big[sl]
+    if layout == 'negative-stride':
+        sl = tuple(slice(None, None, -1) for _ in a.shape)
+        return np.ascontiguousarray(a[sl])[sl]
+    if layout == 'read-only':
+        b = a.copy()
+        b.flags.writeable = False
+        return b
+    return np.ascontiguousarray(a)
+
+
+def spell_int(v, how):
+    """an integer argument as Python int / numpy integer"""
+    if v is None:
+        return None
+    return {'int': int, 'np.int64': np.int64, 'np.int32': np.int32, 'np.uint16': (lambda x: np.uint16(x) if x >= 0 else np.int16(x))}[how](v)
+
+
 def _fetch(fn, *a, **k):
     try:
         return ('ok', fn(*a, **k))
@@ -206,6 +239,13 @@ def _slide_config(ctx, idx):
     R = r.randint(1, 7) if small else r.randint(8, 14)
     C = r.randint(1, 7) if small else r.randint(8, 14)
     th, tw = r.randint(1, 6), r.randint(1, 6)
+    # sizes with remainder exactly 1 / exactly tile - 1 / dividing are drawn explicitly (boundary residues)
+    rem = r.choice(['any', 'any', 'one', 'minus-one', 'divides'])
+    if rem != 'any':
+        kr, kc = r.randint(0 if rem == 'one' else 1, 3), r.randint(0 if rem == 'one' else 1, 3)
+        R = kr * th + {'one': 1, 'minus-one': th - 1, 'divides': 0}[rem]
+        C = kc * tw + {'one': 1, 'minus-one': tw - 1, 'divides': 0}[rem]
+        R, C = max(1, min(R, 14)), max(1, min(C, 14))
     full = r.random() < 0.45
     samples = 3 if r.random() < 0.15 else 1
     bits = 16 if (samples == 1 and r.random() < 0.3) else 8
@@ -222,7 +262,8 @@ def _slide_config(ctx, idx):
         if r.random() < 0.5:
             order = list(range(kept))
             r.shuffle(order)
-    return dict(idx=idx, R=R, C=C, th=th, tw=tw, full=full, samples=samples, bits=bits, omit=omit, order=order)
+    return dict(idx=idx, R=R, C=C, th=th, tw=tw, full=full, samples=samples, bits=bits, omit=omit, order=order,
+                int_spelling=r.choice(['int', 'int', 'np.int64', 'np.int32', 'np.uint16']))
 
 
 def _touches_omitted(cfg, r0, r1, c0, c1):
@@ -272,10 +313,16 @@ def _check_slide(ctx, cfg, requests, reqs, pending, exhaustive=False):
                 int(f.PlanePositionSlideSequence[0].ColumnPositionInTotalImagePixelMatrix), k, 0]
                for k, f in enumerate(ds.PerFrameFunctionalGroupsSequence)]
     impls = []
+    snapshot = (bytes(ds.PixelData), int(ds.NumberOfFrames))
+    spelling = cfg.get('int_spelling', 'int')
+    first_ok = None
     for q, req in enumerate(requests):
         rs, re, cs, ce, ai = req
         orc = oracle_region(R, C, req)
-        st, val = _fetch(im.get_total_pixel_matrix, row_start=rs, row_end=re, column_start=cs, column_end=ce, as_indices=ai)
+        st, val = _fetch(im.get_total_pixel_matrix, row_start=spell_int(rs, spelling), row_end=spell_int(re, spelling),
+                         column_start=spell_int(cs, spelling), column_end=spell_int(ce, spelling), as_indices=ai)
+        if st == 'ok' and first_ok is None:
+            first_ok = (req, np.array(val, copy=True))
         case = {'slide': cfg, 'request': list(req)}
         if orc[0] == 'refuse':
             cls = 'refuse'
@@ -319,6 +366,18 @@ def _check_slide(ctx, cfg, requests, reqs, pending, exhaustive=False):
                          site='Image.get_total_pixel_matrix')
             # cls == 'empty': an empty array or a refusal are both fine
         impls.append(('ok', {'shape': list(np.asarray(val).shape[:2]), 'data': _px(val)}) if st == 'ok' else ('err', val))
+    # ---- several calls on ONE object: the first successful read repeated after all the others (accepted and refused ones),
+    #      and the object itself unchanged by reading
+    if first_ok is not None and not exhaustive:
+        rs, re, cs, ce, ai = first_ok[0]
+        st, val = _fetch(im.get_total_pixel_matrix, row_start=rs, row_end=re, column_start=cs, column_end=ce, as_indices=ai)
+        ctx.case(kind='slide', request_class='repeat-read', outcome='ok' if st == 'ok' else val.split(':')[0], int_spelling=spelling)
+        if st != 'ok' or not np.array_equal(np.asarray(val), first_ok[1]):
+            ctx.fail({'slide': cfg, 'request': list(first_ok[0]), 'repeat_after': len(requests)},
+                     {'what': 'the same read repeated on the same object after other reads gives another result',
+                      'second': val if st == 'err' else 'different array'}, site='Image.get_total_pixel_matrix')
+    if (bytes(ds.PixelData), int(ds.NumberOfFrames)) != snapshot:
+        ctx.fail({'slide': cfg}, {'what': 'reading regions modified the image'}, site='Image.get_total_pixel_matrix')
     # ---- model (L0)
     reqs.append(('readRegions', {
         'frames': [_px(f) for f in frames], 'rows': R, 'cols': C, 'th': th, 'tw': tw, 'full': cfg['full'],
@@ -422,6 +481,11 @@ def _seg_config(ctx, idx):
         # C01: frames of fewer than 8 pixels are not packed correctly on this tree -> use bigger tiles
         th, tw = max(th, 2), max(tw, 4)
         tile = (th, tw)
+    rem = r.choice(['any', 'any', 'one', 'minus-one', 'divides'])
+    if rem != 'any' and not (typ == 'BINARY' and th * tw < BINARY_MIN_TILE_PIXELS):
+        kr, kc = r.randint(0 if rem == 'one' else 1, 3), r.randint(0 if rem == 'one' else 1, 3)
+        R = max(1, min(kr * th + {'one': 1, 'minus-one': th - 1, 'divides': 0}[rem], 14))
+        C = max(1, min(kc * tw + {'one': 1, 'minus-one': tw - 1, 'divides': 0}[rem], 14))
     org = r.choice(['TILED_FULL', 'TILED_SPARSE', 'TILED_SPARSE', None])
     omit_empty = r.random() < (0.15 if org == 'TILED_FULL' else 0.6)
     nseg = r.choice([1, 1, 2, 2, 3])
@@ -430,7 +494,10 @@ def _seg_config(ctx, idx):
     all_empty = r.random() < 0.04
     return dict(idx=idx, R=R, C=C, type=typ, src_tile=[sth, stw], tile=list(tile) if tile else None, th=th, tw=tw, org=org,
                 omit_empty=omit_empty, nseg=nseg, style=style, p_empty=p_empty, all_empty=all_empty,
-                src_full=r.random() < 0.5, roundtrip=r.random() < 0.3)
+                src_full=r.random() < 0.5, roundtrip=r.random() < 0.3,
+                layout=r.choice(LAYOUTS), org_spelling=r.choice(['str', 'enum']), tile_spelling=r.choice(['tuple', 'list', 'np.int64']),
+                segnum_spelling=r.choice(['list', 'tuple', 'ndarray']), int_spelling=r.choice(['int', 'int', 'np.int64', 'np.int32']),
+                entry=r.choice(['segread', 'Segmentation.from_dataset', 'segread-lazy']))
 
 
 def _seg_mask(ctx, cfg):
@@ -471,12 +538,18 @@ def _check_seg(ctx, cfg, reqs, pending):
     R, C, th, tw, n = cfg['R'], cfg['C'], cfg['th'], cfg['tw'], cfg['nseg']
     src, _ = slide_image(R, C, cfg['src_tile'][0], cfg['src_tile'][1], tiled_full=cfg['src_full'])
     arr, E = _seg_mask(ctx, cfg)
-    handed = arr.copy()
+    handed = with_layout(arr, cfg.get('layout', 'C'))
+    if not np.array_equal(handed, arr):
+        ctx.fail({'seg': cfg}, 'harness error: layout change altered the values', site='oracle')
     kw = {}
     if cfg['org'] is not None:
-        kw['dimension_organization_type'] = cfg['org']
+        # both spellings of the option: the string and the enum member
+        kw['dimension_organization_type'] = cfg['org'] if cfg.get('org_spelling', 'str') == 'str' else \
+            hd.DimensionOrganizationTypeValues(cfg['org'])
     if cfg['tile'] is not None:
-        kw['tile_size'] = tuple(cfg['tile'])
+        sp = cfg.get('tile_spelling', 'tuple')
+        kw['tile_size'] = tuple(cfg['tile']) if sp == 'tuple' else list(cfg['tile']) if sp == 'list' else \
+            (np.int64(cfg['tile'][0]), np.int64(cfg['tile'][1]))
     st, seg = _fetch(hd.seg.Segmentation, [src], handed, cfg['type'], [seg_description(s) for s in range(1, n + 1)],
                      hd.UID(), 1, hd.UID(), 1, 'verif', 'model', '1', 'dev', tile_pixel_array=True,
                      omit_empty_frames=cfg['omit_empty'], **kw)
@@ -484,7 +557,9 @@ def _check_seg(ctx, cfg, reqs, pending):
     expect_refusal = cfg['org'] == 'TILED_FULL' and cfg['omit_empty'] and any(e.any() for e in E.values())
     full = cfg['org'] == 'TILED_FULL'
     base_hist = dict(kind='seg', seg_type=cfg['type'], organisation=str(cfg['org']), omit_empty=cfg['omit_empty'],
-                     tile=f'{th}x{tw}', divides=(R % th == 0, C % tw == 0), style=cfg['style'])
+                     tile=f'{th}x{tw}', divides=(R % th == 0, C % tw == 0), style=cfg['style'], layout=cfg.get('layout', 'C'),
+                     org_spelling=cfg.get('org_spelling', 'str'), remainder=(min(R % th, 2), min(C % tw, 2)),
+                     entry=cfg.get('entry', 'segread') if cfg['roundtrip'] else 'constructor')
     segs = list(range(1, n + 1))
     mats = [E[s].tolist() for s in segs]
     if st == 'err':
@@ -502,7 +577,13 @@ def _check_seg(ctx, cfg, reqs, pending):
     bio0 = io.BytesIO()
     seg.save_as(bio0)
     if cfg['roundtrip']:
-        st2, seg2 = _fetch(hd.seg.segread, io.BytesIO(bio0.getvalue()))
+        entry = cfg.get('entry', 'segread')
+        if entry == 'Segmentation.from_dataset':
+            st2, seg2 = _fetch(lambda: hd.seg.Segmentation.from_dataset(pydicom.dcmread(io.BytesIO(bio0.getvalue()))))
+        elif entry == 'segread-lazy':
+            st2, seg2 = _fetch(hd.seg.segread, io.BytesIO(bio0.getvalue()), lazy_frame_retrieval=True)
+        else:
+            st2, seg2 = _fetch(hd.seg.segread, io.BytesIO(bio0.getvalue()))
         if st2 == 'err':
             ctx.fail({'seg': cfg}, {'what': 'written tiled segmentation could not be read', 'error': seg2}, site='segread')
             return
@@ -553,12 +634,19 @@ def _check_seg(ctx, cfg, reqs, pending):
         subsets.append(sub)
     impls, cases = [], []
     mreq_requests, mreq_chans = [], []
+    snap = (bytes(reader.PixelData), int(reader.NumberOfFrames)) if not (cfg['roundtrip'] and cfg.get('entry') == 'segread-lazy') else None
+    ssp, isp = cfg.get('segnum_spelling', 'list'), cfg.get('int_spelling', 'int')
+    first_ok = None
     for req in requests:
         rs, re, cs, ce, ai = req
         orc = oracle_region(R, C, req)
         for sub in subsets:
-            st, val = _fetch(reader.get_total_pixel_matrix, row_start=rs, row_end=re, column_start=cs, column_end=ce,
-                             segment_numbers=sub, combine_segments=False, rescale_fractional=False, as_indices=ai)
+            sub_arg = list(sub) if ssp == 'list' else tuple(sub) if ssp == 'tuple' else np.array(sub)
+            st, val = _fetch(reader.get_total_pixel_matrix, row_start=spell_int(rs, isp), row_end=spell_int(re, isp),
+                             column_start=spell_int(cs, isp), column_end=spell_int(ce, isp),
+                             segment_numbers=sub_arg, combine_segments=False, rescale_fractional=False, as_indices=ai)
+            if st == 'ok' and first_ok is None:
+                first_ok = (req, sub, np.array(val, copy=True))
             case = {'seg': cfg, 'request': list(req), 'segments': sub}
             cls = 'refuse' if orc[0] == 'refuse' else 'empty' if (orc[1] == orc[2] or orc[3] == orc[4]) else 'region'
             nontriv = None
@@ -595,6 +683,17 @@ def _check_seg(ctx, cfg, reqs, pending):
             cases.append(case)
             mreq_requests.append(list(req))
             mreq_chans.append(sub)
+    if first_ok is not None:
+        rs, re, cs, ce, ai = first_ok[0]
+        st, val = _fetch(reader.get_total_pixel_matrix, row_start=rs, row_end=re, column_start=cs, column_end=ce,
+                         segment_numbers=first_ok[1], combine_segments=False, rescale_fractional=False, as_indices=ai)
+        ctx.case(request_class='repeat-read', outcome='ok' if st == 'ok' else val.split(':')[0], **base_hist)
+        if st != 'ok' or not np.array_equal(np.asarray(val), first_ok[2]):
+            ctx.fail({'seg': cfg, 'request': list(first_ok[0]), 'segments': first_ok[1], 'repeat_after': len(cases)},
+                     {'what': 'the same read repeated on the same object after other reads gives another result'},
+                     site='Segmentation.get_total_pixel_matrix')
+    if snap is not None and (bytes(reader.PixelData), int(reader.NumberOfFrames)) != snap:
+        ctx.fail({'seg': cfg}, {'what': 'reading regions modified the segmentation'}, site='Segmentation.get_total_pixel_matrix')
     if not np.array_equal(handed, arr):
         ctx.note('constructor changed the array handed in (C20) for ' + str(cfg['idx']))
     # model: one request per (segment subset) group
@@ -689,8 +788,22 @@ def _public_escalation(ctx):
 
 
 # ------------------------------------------------------------------------------------------ run
+def _model(ctx, reqs):
+    """the driver is an interpreted `lean --run` over oleans other builds may be replacing at that moment: retry before giving up"""
+    import time
+    for attempt in range(3):
+        answers = ctx.model(reqs)
+        if answers is not None:
+            return answers
+        ctx.note(f'model driver failed (attempt {attempt + 1}); retrying')
+        time.sleep(15 * (attempt + 1))
+        ctx.model_available = True
+    ctx.model_available = False
+    return None
+
+
 def _settle(ctx, reqs, pending):
-    answers = ctx.model(reqs)
+    answers = _model(ctx, reqs)
     if answers is None:
         return
     for (kind, case, impl, layer, what), ans in zip(pending, answers):
@@ -777,6 +890,11 @@ def _corpus(ctx, reqs, pending):
             _check_seg(ctx, c['seg'], reqs, pending)
 
 
+def _n(ctx, quick, thorough, cap):
+    """budget for this tier; the x10 of the failing-input search is capped so that a thorough search stays inside the time limit"""
+    return min(ctx.n(quick, thorough), 4 * quick if ctx.tier == 'quick' else cap)
+
+
 def run(ctx):
     reqs, pending = [], []
     _corpus(ctx, reqs, pending)
@@ -802,7 +920,7 @@ def run(ctx):
             _settle(ctx, reqs, pending)
             reqs, pending = [], []
     # random slide images
-    for idx in range(ctx.n(100, 1500)):
+    for idx in range(_n(ctx, 100, 1500, 5000)):
         cfg = _slide_config(ctx, idx)
         r = ctx.rng('slidereq', idx)
         # every read decodes each touched frame through pydicom (~1 ms per frame): fewer requests for images with many frames
@@ -812,10 +930,10 @@ def run(ctx):
         if len(reqs) > 200:
             _settle(ctx, reqs, pending)
             reqs, pending = [], []
-    for idx in range(ctx.n(8, 100)):
+    for idx in range(_n(ctx, 8, 100, 300)):
         _check_duplicates(ctx, idx, reqs, pending)
     # tiled segmentations
-    for idx in range(ctx.n(150, 3000)):
+    for idx in range(_n(ctx, 150, 3000, 9000)):
         cfg = _seg_config(ctx, idx)
         _check_seg(ctx, cfg, reqs, pending)
         if len(reqs) > 200:
